@@ -118,7 +118,7 @@ def run(res, prop, tier, seed, work, replay=None):
         if sig in seen and len(seen) > 30:
             continue
         seen.add(sig)
-        body = {"engine": "poolrun", "signature": sig, "seed": r["seed"], "tier": tier, "record": r}
+        body = {"engine": "poolrun", "signature": sig, "seed": seed, "process_seed": r["seed"], "tier": tier, "record": r}
         if r["kind"] in ("race", "panic"):
             body["report"] = races.get(r["sig"], "")
         rp = vlib.save_replay(work, "C32_%d.json" % i, body) if i < 30 else ""
